@@ -616,6 +616,48 @@ int vrt_mutex_unlock(pthread_mutex_t *m)
 	return 0;
 }
 
+/* ---- condition variables (compat_futex_noasync and friends) ---------------------------------
+ * cooperative: wait = release the mutex, sleep on the condition's address until a signal/broadcast marks us woken,
+ * re-acquire the mutex.  A thread nobody ever signals shows up as a DEADLOCK, not as a hung harness process. */
+int vrt_cond_wait(pthread_cond_t *c, pthread_mutex_t *m)
+{
+	struct vthread *me = &T[vrt_tid];
+	if (!vrt_active)
+		return 0;
+	vrt_mutex_unlock(m);
+	vrt_in_prim++;
+	vrt_log("COND_WAIT %s", vrt_loc(c));
+	me->st = ST_FUTEX;
+	me->wait_obj = c;
+	me->woken = 0;
+	sched();
+	me->st = ST_RUN;
+	vrt_log("COND_WOKEN %s", vrt_loc(c));
+	vrt_in_prim--;
+	vrt_mutex_lock(m);
+	return 0;
+}
+
+static int cond_wake(pthread_cond_t *c, int max, const char *what)
+{
+	int i, n = 0;
+	if (!vrt_active)
+		return 0;
+	vrt_in_prim++;
+	vrt_point();
+	for (i = 0; i < nthreads && n < max; i++)
+		if (T[i].used && !T[i].done && T[i].st == ST_FUTEX && T[i].wait_obj == (void *)c && !T[i].woken) {
+			T[i].woken = 1;
+			n++;
+		}
+	vrt_log("%s %s -> %d", what, vrt_loc(c), n);
+	vrt_in_prim--;
+	return 0;
+}
+
+int vrt_cond_broadcast(pthread_cond_t *c) { return cond_wake(c, VRT_MAXT, "COND_BROADCAST"); }
+int vrt_cond_signal(pthread_cond_t *c) { return cond_wake(c, 1, "COND_SIGNAL"); }
+
 /* ---- futex / membarrier ------------------------------------------------------------------ */
 static long do_futex(int32_t *uaddr, int op, int32_t val)
 {
